@@ -302,9 +302,18 @@ def sub_scenario(rec, stats, viol):
     calls = calls_of(rec)
     k = rec["sub_seed"]
     if kind == "snap":
+        # the snapshot is taken at one of three moments: on a brand-new object (its state is still
+        # the default one, created on demand from the global random module), right after an
+        # explicit seed, or after some calls
+        at = k % 3
+        if at == 0:
+            _r.seed(k)
         p = w.new(rec.get("top", "K0"))
-        w.apply({"op": "seed", "p": p, "k": k})
-        do_calls(w, p, calls[:2])
+        if at != 0:
+            w.apply({"op": "seed", "p": p, "k": k})
+        if at == 2:
+            do_calls(w, p, calls[:2])
+        stats["snap_at_%d" % at] = stats.get("snap_at_%d" % at, 0) + 1
         t0 = w.tree(p)
         snap = w.parties[p].obj.get_randstate()
         first = do_calls(w, p, calls)
